@@ -25,6 +25,7 @@ mod xform;
 mod angle;
 mod spline;
 mod mesh;
+mod proj;
 
 use std::io::{BufRead, BufWriter, Write};
 
@@ -78,6 +79,7 @@ fn subsystem(name: &str) -> Option<(GenFn, ExecFn)> {
         "angle" => (angle::gen, angle::exec),
         "spline" => (spline::gen, spline::exec),
         "mesh" => (mesh::gen, mesh::exec),
+        "proj" => (proj::gen, proj::exec),
         _ => return None,
     })
 }
